@@ -7,7 +7,8 @@ PROPERTIES_MODULE = "Properties.C05"
 COQ_TARGETS = ["Properties/C05.vo", "Model/Dispatch.vo"]
 THEOREMS = ["C05_invariant_new", "C05_invariant_item", "C05_invariant_reinit", "C05_invariant_merge",
             "C05_registers_are_max", "C05_new_is_final", "C05_item_keeps_final", "C05_merge_is_union",
-            "C05_merge_equals_sketch_of_union", "C05_merge_registers", "C05_merge_refused"]
+            "C05_merge_equals_sketch_of_union", "C05_merge_registers", "C05_merge_refused",
+            "C05_superminhash_source_flag", "C05_superminhash_is_min", "C05_superminhash_union_is_min"]
 AXIOMS_ALLOWED = []
 TRANSLATORS = [("flags-smh", sklib.translate_flags_smh)]
 TRUSTED_BASE = [
@@ -16,9 +17,9 @@ TRUSTED_BASE = [
     "check before any mutation); compared each run on k_vec, lower_k, nbmin, nb_overflow and every merge result",
     "draw scripts (floor(-log_b x_j), clamped k_j, Fisher-Yates position): harness/src/sk.rs mirrors the float expressions of sketch()",
     "the merge tolerance |x-y|/x < EPSILON is modelled on bit patterns (f64_close) and exercised with 0, 1 and 2 ulp differences",
-    "SuperMinHash part of the property (sketch of a set = position-wise minimum of single-item sketches): hand model "
-    "coq/Model/SuperMinHash.v tied by correspondence; its characterisation theorem is not yet proved, the clause is checked on "
-    "the implementation (sk-props) - see DESIGN.md",
+    "SuperMinHash part: hand model coq/Model/SuperMinHash.v (lazy permutation p/q, histogram b, a_upper) tied by correspondence on "
+    "every field; theorem: sketch = position-wise minimum over the draws of all items, hence sketch of a union = minimum of the "
+    "sketches; float values abstracted as (key, integer part = F key) for a monotone F",
     "extraction (ExtrOcamlBasic) + ocaml/driver.ml",
 ]
 ASSUMPTIONS = ["script well-formedness for the characterisation: k_j non-increasing in j and k_j <= floor(-log_b x_j) + 1 "
